@@ -234,6 +234,30 @@ def probe_wrappers(D, N, seed):
     return res
 
 
+def probe_sine_coarse(N, seed):
+    """unit standard deviation / unit maximum of the sine-wave generators where the sampled sum does NOT have zero mean:
+    grids with N <= cutoff (the wavenumber N aliases onto the constant), non-integer wavenumbers; also through a scaling
+    wrapper.  "unit standard deviation" is a statement about the returned array, whatever its mean is"""
+    import jax.random as jr
+    from exponax import ic
+    key = jr.PRNGKey(seed)
+    res = {}
+    a = np.asarray(ic.RandomSineWaves1d(1, cutoff=5, std_one=True)(N, key=key))
+    res["random_std"] = abs(float(a.std()) - 1.0)
+    b = np.asarray(ic.RandomSineWaves1d(1, cutoff=5, max_one=True)(N, key=key))
+    res["random_max"] = abs(float(np.max(np.abs(b))) - 1.0)
+    x = np.arange(max(N, 8)) / max(N, 8) * 3.0
+    g = ic.SineWaves1d(3.0, (1.0, 0.4), (0.5, 2.0), (0.3, 1.1), std_one=True)
+    c = np.asarray(g(x[None]))
+    res["noninteger_std"] = abs(float(c.std()) - 1.0)
+    g2 = ic.SineWaves1d(3.0, (1.0, 0.4), (0.5, 2.0), (0.3, 1.1), max_one=True)
+    res["noninteger_max"] = abs(float(np.max(np.abs(np.asarray(g2(x[None]))))) - 1.0)
+    sc = np.asarray(ic.ScaledICGenerator(ic.RandomSineWaves1d(1, cutoff=5, std_one=True), 2.5)(N, key=key))
+    res["scaled_std"] = abs(float(sc.std()) - 2.5)
+    bad = {k: v for k, v in res.items() if not v < 1e-10}
+    return {"ok": not bad, "bad": bad, "all": res}
+
+
 def probe_ic_set(D, N, seed):
     """`build_ic_set` = the key-threading loop of the regenerated `Gen.Base.build_ic_set` (bit for bit): sample i is the
     generator at the second half of the split of the key carried after i samples; S samples with the single-draw shape;
@@ -273,6 +297,15 @@ def probe_ic_set(D, N, seed):
 
 def oracle(ctx, deep):
     fails = []
+    for N in (3, 4, 5) + ((2, 6, 7) if deep else ()):
+        try:
+            r = probe_sine_coarse(N, ctx.seed)
+        except Exception as e:  # noqa: BLE001
+            r = {"ok": False, "bad": {"exception": f"{type(e).__name__}: {str(e)[:200]}"}}
+        ctx.count(("oracle_sine_coarse", N))
+        if not r["ok"]:
+            fails.append({"key": "C18:sine-waves:non-zero-mean", "what": f"sine-wave generator on a grid / with wavenumbers where the sampled sum has a non-zero mean (N={N}): unit std / unit maximum not realised: {r['bad']}",
+                          "probe": "sine_coarse", "args": {"N": N, "seed": ctx.seed}, "observed": r})
     for D in (1, 2) + ((3,) if deep else ()):
         try:
             r = probe_ic_set(D, {1: 16, 2: 9, 3: 6}[D], ctx.seed)
@@ -308,4 +341,4 @@ def oracle(ctx, deep):
 
 
 def replay(probe, args):
-    return {"contract": probe_contract, "wrappers": probe_wrappers, "ic_set": probe_ic_set}[probe](**args)
+    return {"contract": probe_contract, "wrappers": probe_wrappers, "ic_set": probe_ic_set, "sine_coarse": probe_sine_coarse}[probe](**args)
